@@ -820,3 +820,7 @@ PROPS["C34"]["functions"].append("radix_transactions::validation::TransactionVal
                                  "MessageContentsV1::len, DecryptorsByCurveV2::{curve_type, number_of_decryptors})")
 PROPS["C34"]["bounds"] += ("; messages: every shape (none / plaintext text or bytes / encrypted with 0..2 decryptor groups), every "
                            "length, decryptor count and limit <= 3000")
+
+PROPS["C44"]["functions"].append("ConsensusManagerBlueprint::{get_current_time_v2, compare_current_time_v2, epoch_minute_to_instant, "
+                                 "epoch_milli_to_instant} and Instant::compare")
+PROPS["C44"]["bounds"] += "; time queries: every stored clock, every i64 instant, both precisions, all five operators"
